@@ -219,3 +219,40 @@ Definition parse_raw (msg packed : list N) (pelem : list (N * N)) (maxdepth : Z)
   : res (list field) :=
   let mx := if (maxdepth <=? 0)%Z then 64 else Z.to_N maxdepth in
   parse_fields {| o_msg := msg; o_packed := packed; o_pelem := pelem; o_max := mx |} 0 d.
+
+(* ------------------------------------------------------------------ serialize_method.go: the encoder *)
+(* encodeFieldPlans / encodeFieldValue / encodeLengthDelimited / encodePacked / encodeGroupContent over
+   field plans whose PHP values are already converted (toUint64 incl. zigzag, Float64bits / Float32bits
+   for the "double" / "float" hints, AsString): a plan is (number, wire type, converted value). *)
+Inductive plan :=
+| PlScalar  (num wt v : N)                 (* wire type 0, 1 or 5 with its uint64 *)
+| PlString  (num : N) (s : bytes)          (* wire type 2, string / bytes *)
+| PlMessage (num : N) (ps : list plan)     (* wire type 2, encoding "message", value is an object *)
+| PlPacked  (num : N) (vs : list N)        (* wire type 2, encoding "packed": always varints *)
+| PlGroup   (num : N) (ps : list plan)     (* wire type 3: content, then the end-group tag *)
+| PlOther   (num wt : N).                  (* any other wire type: "unsupported wire type" *)
+
+Definition opt_app (a : option bytes) (b : option bytes) : option bytes :=
+  match a, b with Some x, Some y => Some (x ++ y) | _, _ => None end.
+
+Fixpoint enc_plan (p : plan) : option bytes :=
+  let enc_plans := fix go (ps : list plan) : option bytes :=
+    match ps with [] => Some [] | q :: r => opt_app (enc_plan q) (go r) end in
+  match p with
+  | PlScalar num wt v =>
+      match wt with
+      | 0 => Some (append_tag num 0 ++ append_varint v)
+      | 1 => Some (append_tag num 1 ++ append_fixed64 v)
+      | 5 => Some (append_tag num 5 ++ append_fixed32 (v mod 2 ^ 32))      (* uint32(n) *)
+      | _ => None
+      end
+  | PlString num s => Some (append_tag num 2 ++ append_bytes s)
+  | PlMessage num ps => match enc_plans ps with
+                        | Some inner => Some (append_tag num 2 ++ append_bytes inner) | None => None end
+  | PlPacked num vs => Some (append_tag num 2 ++ append_bytes (flat_map append_varint vs))
+  | PlGroup num ps => match enc_plans ps with
+                      | Some inner => Some (append_tag num 3 ++ inner ++ append_tag num 4) | None => None end
+  | PlOther _ _ => None
+  end.
+Fixpoint enc_plans (ps : list plan) : option bytes :=
+  match ps with [] => Some [] | q :: r => opt_app (enc_plan q) (enc_plans r) end.
